@@ -1534,9 +1534,15 @@ def _reduce(a, axis, f, init=None, dt=None, valid_neutral=None):
     if axis is None:
         vals = a.flat_list()
         if a.n is not None:
-            if valid_neutral is None:
-                raise Unsupported("reduction over variable-length array")
             rowlen = _prod(a.shape_cap[1:])
+            if valid_neutral is None:
+                # min/max: fold over the valid prefix only
+                if _tb(a.n == 0) if not isinstance(a.n, int) else a.n == 0:
+                    raise ValueError("zero-size array to reduction operation which has no identity")
+                r = vals[0]
+                for i, v in enumerate(vals[1:], 1):
+                    r = ite(_valid(a, i // rowlen), f(r, v), r)
+                return r
             vals = [ite(_valid(a, i // rowlen), v, valid_neutral) for i, v in enumerate(vals)]
         if not vals:
             if init is None:
@@ -1602,7 +1608,10 @@ def mean(a, axis=None):
     s = sum(a, axis)
     cnt = len(a.offs) if axis is None else a.shape_cap[axis]
     if a.n is not None:
-        raise Unsupported("mean varlen")
+        ax = None if axis is None else (axis if axis >= 0 else axis + a.ndim)
+        if ax is None or a.vlast or ax == 0:
+            raise Unsupported("mean varlen")
+        # reduction over a fixed-size trailing axis of an array whose first axis is variable: row-wise
     return s / cnt if isinstance(s, SArr) else _div(s, cnt)
 
 
@@ -1669,6 +1678,29 @@ def cumsum(a, axis=None):
         s = _add(s, v)
         out.append(s)
     return SArr.new(out, a.shape_cap, a.n, a.dtype)
+
+
+def cumprod(a, axis=None):
+    a = asarray(a)
+    dt = int64 if a.dtype in (bool_, bool) else a.dtype
+    conv = (lambda v: ite(_tb(v), 1, 0)) if a.dtype in (bool_, bool) else (lambda v: v)
+    if a.ndim == 1:
+        out, s = [], 1
+        for v in a.flat_list():
+            s = _mul(s, conv(v))
+            out.append(s)
+        return SArr.new(out, a.shape_cap, a.n, dt)
+    if a.ndim == 2 and axis in (1, -1):
+        r, c = a.shape_cap
+        fl = a.flat_list()
+        out = []
+        for i in range(r):
+            s = 1
+            for j in range(c):
+                s = _mul(s, conv(fl[i * c + j]))
+                out.append(s)
+        return SArr.new(out, a.shape_cap, a.n, dt)
+    raise Unsupported("cumprod nd")
 
 
 def diff(a, axis=-1):
@@ -1834,8 +1866,8 @@ def unique(a, return_index=False, return_inverse=False, return_counts=False, axi
     N = len(rows)
     if not _bi.any(isinstance(v, Sym) for r in rows for v in r):
         return _unique_concrete(rows, N, w, twod, a.dtype, return_index, return_inverse, return_counts)
-    if UNIQUE_MODE[0] == "relational" and not return_index:
-        return _unique_rel(rows, N, w, twod, a.dtype, return_inverse, return_counts)
+    if UNIQUE_MODE[0] == "relational":
+        return _unique_rel(rows, N, w, twod, a.dtype, return_inverse, return_counts, return_index)
     return _unique_rank(rows, N, w, twod, a.dtype, return_index, return_inverse, return_counts)
 
 
@@ -1907,7 +1939,7 @@ def _unique_rank(rows, N, w, twod, dt, return_index, return_inverse, return_coun
     return tuple(res) if len(res) > 1 else U
 
 
-def _unique_rel(rows, N, w, twod, dt, return_inverse, return_counts):
+def _unique_rel(rows, N, w, twod, dt, return_inverse, return_counts, return_index=False):
     """numpy's documented contract as fresh variables: K distinct sorted rows U[0..K), inverse[i]
     with U[inverse[i]] == row_i, every U[k] hit.  Total, hence never vacuous (checked by the
     reachability twin of the calling obligation)."""
@@ -1933,6 +1965,14 @@ def _unique_rel(rows, N, w, twod, dt, return_inverse, return_counts):
         S.add(z3.Implies(k < K, z3.Or(*[inv[i] == k for i in range(N)])))
     Uarr = SArr.new([mk(x) for r in U for x in r], (N, w) if twod else (N,), mk(K), dt)
     res = [Uarr]
+    if return_index:
+        # index of the first occurrence of each unique row
+        ind = [e.fresh(f"uX_{k}", "Int") for k in range(N)]
+        for k in range(N):
+            S.add(ind[k] >= 0, ind[k] < N)
+            for i in range(N):
+                S.add(z3.Implies(z3.And(k < K, ind[k] == i), z3.And(inv[i] == k, *[inv[j] != k for j in range(i)])))
+        res.append(SArr.new([mk(x) for x in ind], (N,), mk(K), int64))
     if return_inverse:
         res.append(SArr.new([mk(x) for x in inv], (N,), None, int64))
     if return_counts:
@@ -2050,6 +2090,8 @@ def uf(name, arity=1):
     return _UF[name]
 
 
+TRIG_RANGE = [False]   # when set, every uninterpreted trig application comes with the range of the float function it stands for
+_RANGES = {"sin": (-1, 1), "cos": (-1, 1), "arcsin": (-PI_Q / 2, PI_Q / 2), "arccos": (0, PI_Q), "arctan": (-PI_Q / 2, PI_Q / 2)}
 TRIG_LOG = []     # (name, argument term, result term) of every uninterpreted application on the current path
 
 
@@ -2068,6 +2110,9 @@ def _uf1(name, pyf):
             return pyf(v)
         t = uf(name)(_real(v))
         TRIG_LOG.append((name, _real(v), t))
+        if TRIG_RANGE[0] and name in _RANGES:
+            lo, hi = _RANGES[name]
+            eng().solver.add(t >= sc.lift(lo), t <= sc.lift(hi))
         return mk(t)
     def g(a, dtype=None, out=None):
         r = _unary(a, f, float64)
@@ -2101,6 +2146,8 @@ def arctan2(y, x, dtype=None):
             return math.atan2(p, q)
         t = uf("arctan2", 2)(_real(p), _real(q))
         TRIG_LOG.append(("arctan2", (_real(p), _real(q)), t))
+        if TRIG_RANGE[0]:
+            eng().solver.add(t >= sc.lift(-PI_Q), t <= sc.lift(PI_Q))
         return mk(t)
     return _binary(y, x, f, float64)
 
